@@ -2,7 +2,8 @@
   `Validate/Chain.lean` with the rules' enter function as a PARAMETER (generated from it by renaming: same traversal,
   same `SkipNode` handling), so that the chain can be run with the memoised overlap search (`enterRuleM`,
   /repo 7e75356) while `Chain.lean` - the chain of the theorems - stays as it is. `visitDocumentPar enterRule = visitDocument`
-  by construction (not proved; the correspondence cross-checks both chains on every ranked document).
+  (proved: `Lemmas/ValidateChainParEq.lean: visitDocumentPar_eq`; the correspondence also cross-checks both chains on every
+  ranked document).
 -/
 import PyGqlModel.Validate.Chain
 import PyGqlModel.Validate.OverlapMemo
